@@ -586,10 +586,21 @@ class ChangePoint(CovarianceFunction):
 
         for i in range(self.n_kernels - 1):
             w = w_vals[i]
+            # kernels i and i+1 are also weighted by the neighbouring change-points
+            if i > 0:
+                w_prev = w_vals[i - 1][:, None] * w_vals[i - 1][None, :]
+            else:
+                w_prev = 1.0
+            if i + 2 < self.n_kernels:
+                w_next = (1 - w_vals[i + 1])[:, None] * (1 - w_vals[i + 1])[None, :]
+            else:
+                w_next = 1.0
             for dw in w_grads[i]:
                 A = -dw[:, None] * (1 - w)[None, :]
                 B = dw[:, None] * w[None, :]
-                gradients.append(K_vals[i] * (A + A.T) + K_vals[i + 1] * (B + B.T))
+                gradients.append(
+                    K_vals[i] * (A + A.T) * w_prev + K_vals[i + 1] * (B + B.T) * w_next
+                )
         return covar, gradients
 
     @staticmethod
